@@ -130,7 +130,7 @@ const (
 		"................................" + // 0x00
 		"..E............................." + // 0x20
 		".....................U......E..." + // 0x40
-		"..E...E.......E...E.Eu.........." + // 0x60
+		"..E...E.......E...E.Eu......E..." + // 0x60
 		"................................" + // 0x80
 		"................................" + // 0xa0
 		"................................" + // 0xc0
@@ -141,7 +141,7 @@ const (
 		"................................" + // 0x00
 		"..\"............................." + // 0x20
 		"............................\\..." + // 0x40
-		"..\b...\f.......\n...\r.\t.........." + // 0x60
+		"..\b...\f.......\n...\r.\t.......|..." + // 0x60
 		"................................" + // 0x80
 		"................................" + // 0xa0
 		"................................" + // 0xc0
